@@ -20,17 +20,17 @@ from pbmon.oracle import bvscale as O
 PROPERTY = "C15"
 NSHARDS = {"quick": 4, "thorough": 16}
 CLAUSES = {
-    "C15.roundtrip": 3000,          # per trait column: unscale() == raw, NaN mask identical (fresh from_numpy objects)
-    "C15.roundtrip.stored": 3000,   # per trait column: stored values centred / unit sd; constant trait: zeros with scale exactly 1
-    "C15.stats": 40000,             # per column x summary, unscale=True, vs. definition on the raw column
-    "C15.stats.arg": 8000,          # per column x {targmax, targmin}
-    "C15.stats.stored": 20000,      # per NaN-free column x summary, unscale=False, vs. the stored column
-    "C15.ops": 4000,                # per executed taxa-axis operation
-    "C15.generic": 1500,            # DenseScaledMatrix relations
+    "C15.roundtrip": 15000,         # per trait column: unscale() == raw, NaN mask identical (fresh from_numpy objects)
+    "C15.roundtrip.stored": 15000,  # per trait column: stored values centred / unit sd; constant trait: zeros with scale exactly 1
+    "C15.stats": 150000,            # per column x summary, unscale=True, vs. definition on the raw column
+    "C15.stats.arg": 40000,         # per column x {targmax, targmin}
+    "C15.stats.stored": 80000,      # per NaN-free column x summary, unscale=False, vs. the stored column
+    "C15.ops": 10000,               # per executed taxa-axis operation
+    "C15.generic": 10000,           # DenseScaledMatrix relations
 }
 OPS = ["select_taxa", "delete_taxa", "insert_taxa", "adjoin_taxa", "concat_taxa", "append_taxa", "incorp_taxa",
        "remove_taxa", "reorder_taxa", "sort_taxa", "group_taxa"]
-HOOKS_REQUIRED = ["op:" + o for o in OPS] + ["class:DenseBreedingValueMatrix", "class:DenseEstimatedBreedingValueMatrix",
+HOOKS_REQUIRED = ["op:" + o for o in OPS] + ["recorder:from_numpy", "class:DenseBreedingValueMatrix", "class:DenseEstimatedBreedingValueMatrix",
                                               "class:DenseGenomicEstimatedBreedingValueMatrix"]
 RULE = ("seeded class-based raw matrices: 1-40 taxa (10%: up to 200), 1-4 traits, every trait column drawn from a named class "
         "(gaussian with sd 1e-3..1e3, offsets up to +-1e9, constant with short / long binary expansion, integer lattice with "
@@ -66,6 +66,27 @@ def bv_classes():
     from pybrops.popgen.bvmat.DenseEstimatedBreedingValueMatrix import DenseEstimatedBreedingValueMatrix
     from pybrops.popgen.bvmat.DenseGenomicEstimatedBreedingValueMatrix import DenseGenomicEstimatedBreedingValueMatrix
     return [DenseBreedingValueMatrix, DenseEstimatedBreedingValueMatrix, DenseGenomicEstimatedBreedingValueMatrix]
+
+
+_FN = [0]          # calls of the class' standardising constructor (recorder installed from outside, no repo hook)
+_INSTALLED = []
+
+
+def install_recorder():
+    """Count DenseBreedingValueMatrix.from_numpy calls so that a badly standardised result of an operation that went
+    through from_numpy is attributed to from_numpy (one mechanism, one key) and not to every operation."""
+    if _INSTALLED:
+        return
+    B = bv_classes()[0]
+    f = B.__dict__["from_numpy"].__func__
+
+    def from_numpy(cls, *a, **k):
+        _FN[0] += 1
+        return f(cls, *a, **k)
+    from_numpy.__wrapped_orig__ = f
+    from_numpy.__doc__ = f.__doc__
+    B.from_numpy = classmethod(from_numpy)
+    _INSTALLED.append(f)
 
 
 def site_of(cls, name):
@@ -177,7 +198,7 @@ def check_roundtrip(ctx, obj, R, sts, mags, k, site, coords, clause="C15.roundtr
         return False
     un = numpy.asarray(un, dtype=float)
     if un.shape != R.shape:
-        ctx.check(clause, False, site, "unscale() has the shape of the raw matrix", "any" + tag,
+        ctx.check(clause, False, site, "unscale() has the shape of the raw matrix", "any",
                   witness={"shape": list(un.shape), "expected": list(R.shape)}, coords=coords)
         return False
     allok = True
@@ -198,8 +219,12 @@ def check_roundtrip(ctx, obj, R, sts, mags, k, site, coords, clause="C15.roundtr
     return allok
 
 
-def check_stored(ctx, obj, R, sts, mags, k, site, coords):
-    """Stored columns are centred with unit sd; a constant trait is stored as zeros with scale exactly 1."""
+def check_stored(ctx, obj, R, sts, mags, k, site, coords, derived=False):
+    """Stored columns are centred with unit sd; a constant trait is stored as zeros with scale exactly 1.
+
+    derived=True: the object is the result of an operation on matrices, i.e. it was standardised from values that the
+    library reconstructed to rounding error; a constant trait may then legitimately carry rounding noise, so either the
+    exact form (zeros, scale 1) or a scale at rounding level is admissible ("to rounding error")."""
     M = numpy.asarray(obj.mat, dtype=float); loc = numpy.asarray(obj.location, dtype=float); sc = numpy.asarray(obj.scale, dtype=float)
     for j in range(R.shape[1]):
         st = sts[j]
@@ -212,11 +237,15 @@ def check_stored(ctx, obj, R, sts, mags, k, site, coords):
         if st["const"]:
             v = st["tmax"]
             icls = "constant column/" + ("value with short binary expansion" if O.short_binary(v) else "value with long binary expansion")
-            cond = sc[j] == 1.0 and all(abs(x) <= 4 * O.EPS * (k + 1) * (3 * abs(v)) for x in fin)
+            noise = 4 * O.EPS * (k + 1) * (abs(v) + 2 * mags[j])
+            cond = sc[j] == 1.0 and all(abs(x) <= noise for x in fin)
+            if derived and not cond and 0.0 < sc[j] <= noise:
+                ctx.sumnote("constant trait of a derived matrix carries rounding noise (admissible, not judged)")
+                continue
             ctx.check("C15.roundtrip.stored", cond, site, "constant trait stored as zeros with scale exactly 1", icls,
                       witness={"raw_column": R[:, j], "stored_column": M[:, j], "location": loc[j], "scale": sc[j]}, coords=coords)
             continue
-        tolc = O.REL_STAT * (k + 1) * st["mag"] / st["tstd"] + 1e-12
+        tolc = O.REL_STAT * (k + 1) * max(st["mag"], mags[j]) / st["tstd"] + 1e-12
         if tolc > 0.25:
             ctx.sumnote("stored-centring not decidable (sd at rounding level)")
             continue
@@ -229,18 +258,26 @@ def check_stored(ctx, obj, R, sts, mags, k, site, coords):
                            "location": loc[j], "scale": sc[j]}, coords=coords)
 
 
+INPLACE = "taxa set changed in place"
+
+
 def check_stats(ctx, obj, R, sts, mags, k, coords, tag=""):
-    """Every per-trait summary on the original scale equals that summary of the raw values."""
+    """Every per-trait summary on the original scale equals that summary of the raw values.
+
+    Finding keys: for an object as returned by a constructor / non-mutating operation the input class is the class of the
+    raw column; for an object whose taxa set was changed in place (append/incorp/remove) it is that state, whatever the
+    column (one stale-parameter mechanism must not produce one key per column class)."""
     cls = type(obj); n, t = R.shape
+    kcls = (lambda st: INPLACE) if tag else O.keyclass
     stored = numpy.array(obj.mat, dtype=float, copy=True)
     for name in SUMM:
         site = site_of(cls, name)
-        ok, val = guarded_call(ctx, "C15.stats", site, "any" + tag, coords, lambda: getattr(obj, name)(unscale=True))
-        ok2, vst = guarded_call(ctx, "C15.stats.stored", site, "any" + tag, coords, lambda: getattr(obj, name)(unscale=False))
+        ok, val = guarded_call(ctx, "C15.stats", site, "any", coords, lambda: getattr(obj, name)(unscale=True))
+        ok2, vst = guarded_call(ctx, "C15.stats.stored", site, "any", coords, lambda: getattr(obj, name)(unscale=False))
         if ok:
             val = numpy.array(val, dtype=float, copy=True)
             if val.shape != (t,):
-                ctx.check("C15.stats", False, site, "one value per trait", "any" + tag, witness={"shape": list(val.shape), "ntrait": t}, coords=coords)
+                ctx.check("C15.stats", False, site, "one value per trait", "any", witness={"shape": list(val.shape), "ntrait": t}, coords=coords)
                 ok = False
         if ok2:
             vst = numpy.array(vst, dtype=float, copy=True)
@@ -249,15 +286,13 @@ def check_stats(ctx, obj, R, sts, mags, k, coords, tag=""):
             st = sts[j]
             if st is None:
                 continue
-            kc = O.keyclass(st) + tag
+            kc = kcls(st)
             if ok:
                 exp = st[name]; tol = O.tol_stat(name, st, mags[j], k); v = float(val[j])
                 good = (abs(v - exp) <= tol) or (st["nan"] and v != v)
                 if v == v and good and tol > 0:
                     ctx.maxnote("summary |err|/tol", abs(v - exp) / tol)
                 rel = "%s(unscale=True) == %s of the raw column" % (name, SUMM_WORD[name])
-                if st["nan"]:
-                    rel += " (NaN-aware, or NaN)"
                 ctx.check("C15.stats", good, site, rel, kc,
                           witness={"raw_column": R[:, j], "got": v, "expected": exp, "tol": tol, "location": obj.location[j],
                                    "scale": obj.scale[j]}, coords=coords)
@@ -270,18 +305,18 @@ def check_stats(ctx, obj, R, sts, mags, k, coords, tag=""):
                               witness={"stored_column": stored[:, j], "got": v, "expected": sst[name]}, coords=coords)
     for name, ext in (("targmax", "tmax"), ("targmin", "tmin")):
         site = site_of(cls, name)
-        ok, val = guarded_call(ctx, "C15.stats.arg", site, "any" + tag, coords, getattr(obj, name))
+        ok, val = guarded_call(ctx, "C15.stats.arg", site, "any", coords, getattr(obj, name))
         if not ok:
             continue
         val = numpy.asarray(val)
         if val.shape != (t,):
-            ctx.check("C15.stats.arg", False, site, "one index per trait", "any" + tag, witness={"shape": list(val.shape)}, coords=coords)
+            ctx.check("C15.stats.arg", False, site, "one index per trait", "any", witness={"shape": list(val.shape)}, coords=coords)
             continue
         for j in range(t):
             st = sts[j]
             if st is None:
                 continue
-            kc = O.keyclass(st) + tag
+            kc = kcls(st)
             try:
                 i = int(val[j]); inr = (0 <= i < n) and float(val[j]) == i
             except Exception:
@@ -294,7 +329,7 @@ def check_stats(ctx, obj, R, sts, mags, k, coords, tag=""):
                       witness={"raw_column": R[:, j], "index": val[j], "extreme": st[ext]}, coords=coords)
     # the summary calls must leave the object as it was (a summary that rescales in place would corrupt later answers)
     same = numpy.array_equal(stored, numpy.asarray(obj.mat, dtype=float), equal_nan=True)
-    ctx.check("C15.stats", same, site_of(cls, "tmax"), "summary calls leave the stored values unchanged", "any" + tag,
+    ctx.check("C15.stats", same, site_of(cls, "tmax"), "summary calls leave the stored values unchanged", "any",
               witness={"before": stored, "after": obj.mat}, coords=coords)
 
 
@@ -357,6 +392,15 @@ def positions(g, n, allow_all=False):
 
 
 def case_ops(ctx, c):
+    install_recorder()
+    fn0 = _FN[0]
+    try:
+        _case_ops(ctx, c)
+    finally:
+        ctx.hook("recorder:from_numpy", _FN[0] - fn0)
+
+
+def _case_ops(ctx, c):
     g = ctx.rng("ops", c)
     classes = bv_classes()
     cls = classes[int(g.integers(3))]
@@ -478,6 +522,7 @@ def case_ops(ctx, c):
         ctx.hook("op:" + op)
         site = site_of(cls, op)
         R_before = U[ids]
+        fn0 = _FN[0]
         try:
             res = call()
         except Exception as e:
@@ -527,8 +572,9 @@ def case_ops(ctx, c):
             w = dict(w0, taxa=lids, first_bad={"row": i, "trait": j, "taxon": lids[i] if i < len(lids) else None},
                      raw_row=R[i] if R.size else None, unscaled_row=un[i] if un.ndim == 2 and un.shape[0] > i else None,
                      location=obj.location, scale=obj.scale)
-        rel = "missing stays missing, nothing else becomes missing" if not mok else "every retained taxon keeps its raw values"
-        good = ctx.check("C15.ops", mok and vok, site, rel, vform, witness=w, coords=coords)
+        good = ctx.check("C15.ops", mok and vok, site, "every retained taxon keeps its raw values, missing stays missing", vform,
+                         what=None if (mok and vok) else "C15.ops: after %s the matrix no longer reproduces the raw values of its taxa (%s)"
+                         % (site, "NaN mask differs" if not mok else "values differ"), witness=w, coords=coords)
         if not inplace:
             # the source of a non-mutating operation is still what it was
             try:
@@ -541,12 +587,13 @@ def case_ops(ctx, c):
         if not good:
             return  # later states descend from a corrupted object: judging them would only multiply the same finding
         if op in ("append_taxa", "incorp_taxa", "remove_taxa"):
-            tag = "/after in-place " + op
+            tag = INPLACE
         elif not inplace:
             tag = ""
         sts, _ = col_stats(R)
         if not inplace:
-            check_stored(ctx, obj, R, sts, mags, k, site, coords)
+            # a result built by the standardising constructor is that constructor's responsibility
+            check_stored(ctx, obj, R, sts, mags, k, site0 if _FN[0] > fn0 else site, coords, derived=True)
         check_stats(ctx, obj, R, sts, mags, k, coords, tag)
         b, ids = obj, lids
 
@@ -654,7 +701,7 @@ def case_generic(ctx, c):
               witness={"raw": Rf, "stored": flat(sm.mat), "location": sm.location, "scale": sm.scale, "first_bad": first}, coords=coords)
 
 
-FAMILIES = {"build": (case_build, 4000, 160000), "ops": (case_ops, 2400, 96000), "generic": (case_generic, 1200, 32000)}
+FAMILIES = {"build": (case_build, 12000, 480000), "ops": (case_ops, 7200, 288000), "generic": (case_generic, 3600, 96000)}
 
 
 def run_shard(ctx):
